@@ -2,7 +2,7 @@
 
     Transcribed from (line numbers of the tree the model was written against):
       /repo/src/query_router.rs:30-38    CUSTOM_SQL_REGEXES (the seven literals)
-      /repo/src/query_router.rs:163-369  QueryRouter::try_execute_command
+      /repo/src/query_router.rs:163-372  QueryRouter::try_execute_command
       /repo/src/client.rs:1659-1742      Client::handle_custom_protocol
       /repo/src/messages.rs:303-319      custom_protocol_response_ok
       /repo/src/messages.rs:324-368      error_response / error_response_terminal
@@ -12,11 +12,10 @@
 
     Bytes are [N] (< 256).  The query text is modelled at the level of the RAW bytes of the
     Query message: the code decodes them with String::from_utf8_lossy and runs the regex crate
-    on the resulting &str.  Every literal of the seven regexes is ASCII; under (?i) the regex
-    crate (Unicode simple case folding) additionally lets U+017F (UTF-8 C5 BF) stand for s/S
-    and U+212A (UTF-8 E2 84 AA) for k/K; invalid UTF-8 becomes U+FFFD, which matches nothing.
-    So "the decoded string matches" is a property of the raw bytes, which is what [classify]
-    decides.  Definitions only; everything here is executable. *)
+    on the resulting &str.  Every literal of the seven regexes is ASCII and the flags are
+    (?i-u): case folding is ASCII-only, so a non-ASCII character (or U+FFFD, which invalid
+    UTF-8 becomes) matches nothing.  "The decoded string matches" is therefore a property of
+    the raw bytes, which is what [classify] decides.  Definitions only; all executable. *)
 From Coq Require Import NArith String Ascii List Bool.
 Import ListNotations.
 Open Scope N_scope.
@@ -32,13 +31,6 @@ Definition lower (b : N) : N := if is_upper b then b + 32 else b.
 Definition upper (b : N) : N := if is_lower b then b - 32 else b.
 Definition is_letter (b : N) : bool := is_lower (lower b).
 
-(* extra spellings of a literal under the regex crate's (?i): only s and k have non-ASCII
-   simple case folds (U+017F LATIN SMALL LETTER LONG S, U+212A KELVIN SIGN) *)
-Definition fold_extra (c : N) : option (list N) :=
-  if lower c =? 115 then Some [197; 191]
-  else if lower c =? 107 then Some [226; 132; 170]
-  else None.
-
 Fixpoint strip_prefix (p s : list N) : option (list N) :=
   match p, s with
   | [], _ => Some s
@@ -46,16 +38,11 @@ Fixpoint strip_prefix (p s : list N) : option (list N) :=
   | _ :: _, [] => None
   end.
 
-(* one literal character of a regex under (?i): (consumed bytes, rest) *)
+(* one literal character of a regex under (?i-u) (ASCII-only case folding): (consumed, rest) *)
 Definition eat_char (c : N) (s : list N) : option (list N * list N) :=
   match s with
   | [] => None
-  | b :: r =>
-      if lower b =? lower c then Some ([b], r)
-      else match fold_extra c with
-           | Some w => match strip_prefix w s with Some r' => Some (w, r') | None => None end
-           | None => None
-           end
+  | b :: r => if lower b =? lower c then Some ([b], r) else None
   end.
 
 Fixpoint match_kw (kw s : list N) : option (list N * list N) :=
@@ -132,7 +119,7 @@ Definition render_arg (k : argkind) : list N := match k with ADigits => B "[0-9]
 Fixpoint join_bar (l : list (list N)) : list N :=
   match l with [] => [] | [x] => x | x :: r => x ++ [124] ++ join_bar r end.
 Definition render_form (f : form) : list N :=
-  B "(?i)^ *" ++ f_kw f ++
+  B "(?i-u)^ *" ++ f_kw f ++
   match f_q f with
   | QNoArg => []
   | QOpt => B "'?(" ++ join_bar (map render_arg (f_args f)) ++ B ")'?"
@@ -269,11 +256,12 @@ Definition preads_enabled (e : env) (st : rstate) : bool :=
 Definition set_shard (st : rstate) (s : option N) : rstate :=
   mkSt s (st_role st) (st_parser st) (st_preads st).
 
-(* SET PRIMARY READS compares the captured text exactly (query_router.rs:353-362) *)
+(* SET PRIMARY READS: value.to_ascii_lowercase() (query_router.rs:352-366) *)
 Definition preads_of_arg (st : rstate) (a : list N) : rstate :=
-  if list_eqb a (B "on") then mkSt (st_shard st) (st_role st) (st_parser st) (Some true)
-  else if list_eqb a (B "off") then mkSt (st_shard st) (st_role st) (st_parser st) (Some false)
-  else if list_eqb a (B "default") then mkSt (st_shard st) (st_role st) (st_parser st) None
+  let l := map lower a in
+  if list_eqb l (B "on") then mkSt (st_shard st) (st_role st) (st_parser st) (Some true)
+  else if list_eqb l (B "off") then mkSt (st_shard st) (st_role st) (st_parser st) (Some false)
+  else if list_eqb l (B "default") then mkSt (st_shard st) (st_role st) (st_parser st) None
   else st.
 
 (* SET SERVER ROLE: value.to_ascii_lowercase() (query_router.rs:320-350) *)
